@@ -156,6 +156,22 @@ let sess_str (xs : xserver) (ss : session) : string =
        Printf.sprintf "%d:%s" (int_of_nat d) (String.concat "," (List.map (fun e -> pat_str e.e_pat ^ flt_str e.e_flt) es)))
        ss.s_subs.m_groups))
 
+(* PR_RESULT_DATAITEMS per client *)
+let m_str (xs : xserver) : string =
+  let sv = xs_sv ops xs in
+  let b = Buffer.create 256 in
+  Buffer.add_string b "M{";
+  let firstc = ref true in
+  List.iter (fun ss ->
+    if ss.s_out <> [] then begin
+      if not !firstc then Buffer.add_char b ' ';
+      firstc := false;
+      Buffer.add_string b (Printf.sprintf "c%d:" (int_of_n ss.s_id));
+      List.iter (fun d -> Buffer.add_string b (di_str d)) ss.s_out
+    end) (List.sort (fun a b -> compare (int_of_n a.s_id) (int_of_n b.s_id)) (sv_sessions ops sv));
+  Buffer.add_string b "}";
+  Buffer.contents b
+
 (* the part of the state line after the op code; also returns nothing else *)
 let state_str (xs : xserver) : string =
   let sv = xs_sv ops xs in
@@ -227,8 +243,9 @@ type evrec = { ev : xevent; who : int }   (* who = session the event belongs to 
 let run_events (evs : xevent list) : xserver =
   List.fold_left (fun xs e -> xclear ops (xstep ops fixes xs e)) (empty_xserver ops) evs
 
-(* ---- label q: ordered children (Refl/IsoOrd.v).  INSERTORDEREDDATA with one key, REORDERDATA; the lines carry tree (with
-   the ordered index of every node) and sessions only: INDEXUPDATED notifications are not modelled *)
+(* ---- label q: ordered children (Refl/IsoOrd.v).  INSERTORDEREDDATA with one key, REORDERDATA; the lines carry the
+   PR_RESULT_DATAITEMS every client received, the tree (with the ordered index of every node) and the sessions; the
+   PR_RESULT_INDEXUPDATED notifications are not modelled *)
 let iname (c : n) : n = intern ("I" ^ string_of_int (int_of_n c))
 let remove_from_index = "!Rmv"
 let before_of (s : string) : n option = if s = remove_from_index then None else Some (intern s)
@@ -255,10 +272,28 @@ let parse_ocmd (code : string) (fs : string list) : ocmd option =
     (* a field name that occurs twice is one field with two values; FindString reads the first *)
     let fl = List.fold_left (fun acc (k, v) -> if List.mem_assoc k acc then acc else acc @ [(k, v)]) [] fl in
     Some (OReorder (List.map (fun (k, v) -> (spath_of k, before_of v)) fl))
-  | _ -> (match parse_cmd code fs with Some c -> Some (OX c) | None -> None)
+  | _ ->
+    (match parse_cmd code fs with
+     | Some (XSetData (flags, its)) when (int_of_n flags) land 8 <> 0 -> Some (OSetIdx (flags, its))   (* SETDATANODE_FLAG_ADDTOINDEX *)
+     | Some c -> Some (OX c)
+     | None -> None)
 
 let parse_osubs (s : string) : ocmd list =
   List.filter_map (fun so -> let sf = split '~' so in parse_ocmd (List.hd sf) (List.tl sf)) (if s = "" then [] else split '+' s)
+
+(* PR_RESULT_DATAITEMS per client, without what a client is told about its own subtree (see harness: _indexingPresent) *)
+let om_str (xs : xserver) : string =
+  let sv = xs_sv ops xs in
+  let per = List.filter_map (fun ss ->
+      let dir = session_dir ops ss in
+      let groups = List.filter_map (fun d ->
+          let r = List.filter (fun p -> not (under dir p)) d.di_removed in
+          let st = List.filter (fun (p, _) -> not (under dir p)) d.di_sets in
+          if r = [] && List.for_all (fun (_, vs) -> vs = []) st then None
+          else Some (di_str { di_removed = r; di_sets = st })) ss.s_out in
+      if groups = [] then None else Some (Printf.sprintf "c%d:%s" (int_of_n ss.s_id) (String.concat "" groups)))
+      (List.sort (fun a b -> compare (int_of_n a.s_id) (int_of_n b.s_id)) (sv_sessions ops sv)) in
+  "M{" ^ String.concat " " per ^ "}"
 
 let onode_str (os : oserver) (nd : node) : string =
   let ix = idx_get (o_idx ops os) nd.n_path in
@@ -267,7 +302,7 @@ let onode_str (os : oserver) (nd : node) : string =
 let ostate_str (os : oserver) : string =
   let xs = o_x ops os in
   let sv = xs_sv ops xs in
-  "T{" ^ String.concat " " (List.map (onode_str os) (dfs dump_fuel (sv_tree ops sv) [])) ^ "} E{" ^
+  om_str xs ^ " T{" ^ String.concat " " (List.map (onode_str os) (dfs dump_fuel (sv_tree ops sv) [])) ^ "} E{" ^
   String.concat " " (List.map (sess_str xs) (sv_sessions ops sv)) ^ "}"
 
 (* everything a command of session s must leave alone, indices and counters included *)
